@@ -124,7 +124,7 @@ Definition wake_ok (s : ms) (e : key * (Z * Z * Z)) : bool :=
   let '(brs, bws, sts) := snap_sets sn in
   if Z.eqb kind K_READ || Z.eqb kind K_READ_TO_END then zmem sid brs
   else if Z.eqb kind K_WRITE || Z.eqb kind K_WRITE_ALL then zmem sid bws
-  else if Z.eqb kind K_STOPPED then zmem sid sts
+  else if Z.eqb kind K_STOPPED || Z.eqb kind 17 then zmem sid sts
   else true.
 
 Definition ref_ok (s : ms) (ep : Z) : bool :=
@@ -147,6 +147,8 @@ Definition result_rec (s : ms) (r : list Z) : option ms :=
       let ep := o_ep oi in let sid := o_sid oi in let kind := o_kind oi in
       (* a connection error before anybody closed (an idle timeout is possible on a lossy link) *)
       if Z.leb 10 res && Z.ltb res 20 && negb (m_closing s) && negb (m_lossy s && Z.eqb res 16) then None else
+      (* an idle timeout can only happen on a lossy link *)
+      if Z.eqb res 16 && negb (m_lossy s) then None else
       if negb (Z.eqb ok 1) then None else
       if Z.eqb kind K_WRITE || Z.eqb kind K_WRITE_ALL then
         if Z.eqb res 0 then
